@@ -360,6 +360,40 @@ def h_e_other(which: int, n: int, bits: int) -> bool:
     return untraced(_other, pick(which, 0, 2), pick(n, 0, 4), pick(bits, 0, 63))
 
 
+PL_STREAMS = [lambda i: 0, lambda i: 10 ** 6 - 1, lambda i: (i // 3) % 2, lambda i: i // 2, lambda i: (i * 7 + 3) % 5]
+PLANTED = [[[1, 2, 3], [-1]], [[-3, 2, -1], [2]], [[3, -2, 1]], [[1, -2, 3], [-1, -2, -3]], [[-2], [1, 2, 3], [3]], []]
+
+
+def _planted(kind, k, m, pi, st):
+    """the random families leave the list of planted assignments (and each assignment in it) as the caller wrote it;
+    draws come from streams that make the rejection phase give up, so the dense fallback runs as well"""
+    import copy
+    from cnfgen.families import randomformulas, randomkxor
+    from vlib.xh.xutil import Tape, FakeRandom
+    mod = randomformulas if kind == 0 else randomkxor
+    fn = mod.RandomKCNF if kind == 0 else mod.RandomKXOR
+    planted = copy.deepcopy(PLANTED[pi])
+    keep = copy.deepcopy(planted)
+    inner = [id(a) for a in planted]
+    old = mod.random
+    mod.random = FakeRandom(Tape(concrete=PL_STREAMS[st], limit=10 ** 6))
+    try:
+        fn(k, 3, m, planted_assignments=planted)
+    except ValueError:
+        pass
+    finally:
+        mod.random = old
+    return planted == keep and inner == [id(a) for a in planted]
+
+
+def h_e_planted(kind: int, k: int, m: int, pi: int, st: int) -> bool:
+    """
+    pre: 0 <= kind <= 1 and 1 <= k <= 3 and 0 <= m <= 13 and 0 <= pi <= 5 and 0 <= st <= 4
+    post: _
+    """
+    return untraced(_planted, pick(kind, 0, 1), pick(k, 1, 3), pick(m, 0, 13), pick(pi, 0, 5), pick(st, 0, 4))
+
+
 # generated: one harness per first transformation
 
 def h_e_tr_0(hi: int, lo: int, named: bool, t2: int, two: bool) -> bool:
